@@ -18,7 +18,7 @@ def field_mutations(prog, owner, field):
     """all structural mutations (calls on &mut of the field) and whole-field assignments; returns
     list of (fn, kind, op, where)"""
     out = []
-    for f in sorted(prog.fns.values(), key=lambda x: x.id):
+    for f in sorted(prog.shape_fns(), key=lambda x: x.id):
         if f.body is None:
             continue
         tr = None
@@ -65,7 +65,7 @@ def check_writers(prog, rep, rule, owner, field, allowed, what):
 def attributes_add_shape(prog, rep, rule):
     """Attributes::add: Vacant -> insert, Ok;  Occupied: Err iff existing != new (and only then
     replace).  No other condition may influence the outcome."""
-    fl = [f for f in prog.fns.values() if f.name == "add" and f.self_path == "tsg::graph::Attributes"]
+    fl = [f for f in prog.shape_fns() if f.name == "add" and f.self_path == "tsg::graph::Attributes"]
     if len(fl) != 1:
         rep.violation(rule, "anchor-lost:Attributes::add", "", "not found")
         return
@@ -135,7 +135,7 @@ def variable_map_shape(prog, rep, rule):
     def aggs(body, blocks, adt_suffix):
         return [st["rv"].get("variant") for b in sorted(blocks) for st in body.blocks[b]["stmts"]
                 if st["k"] == "assign" and st["rv"]["k"] == "aggregate" and (st["rv"].get("adt") or "").endswith(adt_suffix)]
-    fl = [f for f in prog.fns.values() if f.name == "add" and f.self_path == "tsg::variables::VariableMap" and f.trait == "tsg::variables::MutVariables"]
+    fl = [f for f in prog.shape_fns() if f.name == "add" and f.self_path == "tsg::variables::VariableMap" and f.trait == "tsg::variables::MutVariables"]
     if len(fl) != 1:
         rep.violation(rule, "anchor-lost:VariableMap::add", "", "not found")
     else:
@@ -149,7 +149,7 @@ def variable_map_shape(prog, rep, rule):
             any(body.term(b)["k"] == "call" and is_callee(body.term(b), r"VacantEntry::<'a, K, V, A>::insert$") for b in vac) and "Err" not in aggs(body, vac, "result::Result")
         rep.check(ok, rule, "VariableMap::add :: shape", f.loc(), "Vacant → insert+Ok; Occupied → Err(VariableAlreadyDefined), unconditionally and without writing",
                   "VariableMap::add no longer refuses every second definition of a name (occupied arm: errors %s, calls %s, branches %s)" % (aggs(body, occ, "variables::VariableError"), occ_calls, any(True for b in occ for g in switch_edges(body, tr, b))))
-    fl = [f for f in prog.fns.values() if f.name == "set" and f.self_path == "tsg::variables::VariableMap" and f.trait == "tsg::variables::MutVariables"]
+    fl = [f for f in prog.shape_fns() if f.name == "set" and f.self_path == "tsg::variables::VariableMap" and f.trait == "tsg::variables::MutVariables"]
     if len(fl) != 1:
         rep.violation(rule, "anchor-lost:VariableMap::set", "", "not found")
     else:
@@ -178,7 +178,7 @@ def value_equality_structural(prog, rep, rule):
         adt = prog.adts.get(ty)
         nfields = max(len(v["fields"]) for v in adt["variants"]) if adt else 0
         for tr_name in ("std::cmp::PartialEq", "std::hash::Hash", "std::cmp::Ord"):
-            fl = [f for f in prog.fns.values() if f.self_path == ty and f.trait == tr_name and f.name in ("eq", "hash", "cmp")]
+            fl = [f for f in prog.shape_fns() if f.self_path == ty and f.trait == tr_name and f.name in ("eq", "hash", "cmp")]
             key = "%s :: %s" % (ty.rsplit("::", 1)[-1], tr_name.rsplit("::", 1)[-1])
             if len(fl) != 1:
                 rep.violation(rule, "anchor-lost:" + key, "", "impl not found")
@@ -219,7 +219,7 @@ def add_edge_shape(prog, rep, rule):
     extractor; the only structural mutation of outgoing_edges is insert at the miss index"""
     key_fns = {}
     for nm in ("add_edge", "get_edge", "get_edge_mut"):
-        fl = [f for f in prog.fns.values() if f.name == nm and f.self_path == "tsg::graph::GraphNode"]
+        fl = [f for f in prog.shape_fns() if f.name == nm and f.self_path == "tsg::graph::GraphNode"]
         if len(fl) != 1:
             rep.violation(rule, "anchor-lost:GraphNode::%s" % nm, "", "not found")
             continue
@@ -268,7 +268,7 @@ def add_edge_shape(prog, rep, rule):
 
 
 def add_graph_node_shape(prog, rep, rule):
-    fl = [f for f in prog.fns.values() if f.name == "add_graph_node" and f.self_path == "tsg::graph::Graph"]
+    fl = [f for f in prog.shape_fns() if f.name == "add_graph_node" and f.self_path == "tsg::graph::Graph"]
     if len(fl) != 1:
         rep.violation(rule, "anchor-lost:Graph::add_graph_node", "", "not found")
         return
@@ -280,7 +280,7 @@ def add_graph_node_shape(prog, rep, rule):
     ok = len(pushes) == 1 and len(lens) == 1 and body.dominates(lens[0][0], pushes[0][0]) and re.match(r"^graph::GraphNodeRef::GraphNodeRef\{cast\(Vec::len\(&\*arg:self\.graph_nodes\)\)\}$", ret) is not None
     rep.check(ok, rule, "Graph::add_graph_node :: dense refs", f.loc(), "ref = len() before the single push (dense creation-order indices)",
               "add_graph_node does not return the pre-push length as the new node's reference: %s" % ret[:120])
-    it = [g for g in prog.fns.values() if g.name == "iter_nodes" and g.self_path == "tsg::graph::Graph"]
+    it = [g for g in prog.shape_fns() if g.name == "iter_nodes" and g.self_path == "tsg::graph::Graph"]
     if it:
         r = canon(Tracer(it[0].body).local(0))
         rep.check(re.search(r"ops::Range::Range\{0_u32, cast\(Vec::len\(&\*arg:self\.graph_nodes\)\)\}", r) is not None, rule, "Graph::iter_nodes :: 0..len", it[0].loc(),
@@ -341,7 +341,7 @@ def mutability_flags(prog, rep, rule="E5.mut"):
     both interpreters alike (the checker rejects `set` on a `let` local, the interpreters on a `let` scoped variable)"""
     rep.rule(rule, "declarations pass `mutable = true` exactly for `var`; every other definition is immutable; dispatchers forward the flag unchanged (checker, strict, lazy)")
     n = 0
-    for f in sorted(prog.fns.values(), key=lambda x: x.id):
+    for f in sorted(prog.shape_fns(), key=lambda x: x.id):
         if f.body is None or f.crate.prefix != "tsg" or f.file == "src/variables.rs":
             continue
         tr = None
